@@ -26,15 +26,18 @@ def showTime : Option Int → String
   | none => "none"
   | some t => toString t
 
+/-- bit pattern of a float; every NaN prints as `nan` (payloads are not compared) -/
+def showF (x : F64) : String := if x.isNaN then "nan" else toString x.bits
+
 def showReport (r : Report) : String :=
   "ok req=" ++ toString r.requests ++
   " codes=" ++ toString r.statusCodes.length ++ r.statusCodes.foldl (fun s (c, n) => s ++ " " ++ toString c ++ ":" ++ toString n) "" ++
-  " bin=" ++ toString r.bytesInTotal ++ "," ++ toString r.bytesInMean.bits ++
-  " bout=" ++ toString r.bytesOutTotal ++ "," ++ toString r.bytesOutMean.bits ++
+  " bin=" ++ toString r.bytesInTotal ++ "," ++ showF r.bytesInMean ++
+  " bout=" ++ toString r.bytesOutTotal ++ "," ++ showF r.bytesOutMean ++
   " lat=" ++ toString r.latTotal ++ "," ++ toString r.latMean ++ "," ++ toString r.latMax ++ "," ++ toString r.latMin ++
   " t=" ++ showTime r.earliest ++ "," ++ showTime r.latest ++ "," ++ showTime r.end_ ++
   " dur=" ++ toString r.duration ++ " wait=" ++ toString r.wait ++
-  " rate=" ++ toString r.rate.bits ++ " thr=" ++ toString r.throughput.bits ++ " succ=" ++ toString r.successRatio.bits ++
+  " rate=" ++ showF r.rate ++ " thr=" ++ showF r.throughput ++ " succ=" ++ showF r.successRatio ++
   " errs=" ++ showBytesList r.errors
 
 def handle (op : String) (args : List String) : Option String :=
@@ -44,7 +47,7 @@ def handle (op : String) (args : List String) : Option String :=
     pure (showReport (report (close (run Metrics.init ops))))
   | "c10.seconds" => do
     let (d, _) ← (int).run args
-    pure ("ok " ++ toString (seconds d).bits)
+    pure ("ok " ++ showF (seconds d))
   | _ => none
 
 end Vegeta.Driver.C10
